@@ -120,7 +120,7 @@ Proof. intros H. unfold white_space. cbn [span]. rewrite H. reflexivity. Qed.
 (* a token that starts with an ordinary character is decided by the literal scanner *)
 Lemma consume_plain ctx prev (c : N) (r : list N) :
   (c =? c_dollar) = false -> is_space c = false -> is_allowed_repeater c ctx = false ->
-  forall v n e, lit (cquote ctx) (cattr ctx) (cexpr ctx) (cexpr ctx) prev false (c :: r) = (v, S n, e) ->
+  forall v n e, lit (cquote ctx) (cattr ctx) (Z.min (cexpr ctx) 1) (cexpr ctx) prev false (c :: r) = (v, S n, e) ->
   consume ctx prev (c :: r) = (CTok (TLiteral v) (S n), mkCtx (cgroup ctx) (cattr ctx) e (cquote ctx)).
 Proof.
   intros Hd Hs Hr v n e Hl. unfold consume.
@@ -132,7 +132,7 @@ Qed.
 (* a bracket character that the literal scanner refuses becomes a Bracket token *)
 Lemma consume_bracket ctx prev (c : N) (r : list N) b :
   (c =? c_dollar) = false -> is_space c = false -> is_allowed_repeater c ctx = false ->
-  (exists e, lit (cquote ctx) (cattr ctx) (cexpr ctx) (cexpr ctx) prev false (c :: r) = ([], O, e)) ->
+  (exists e, lit (cquote ctx) (cattr ctx) (Z.min (cexpr ctx) 1) (cexpr ctx) prev false (c :: r) = ([], O, e)) ->
   operator_type c = None -> is_quote c = false -> bracket_type c = Some b ->
   consume ctx prev (c :: r) =
     (CTok (TBracket (is_open_bracket c) b) 1,
